@@ -4,19 +4,25 @@
 #include "contracts/net_ha_conf.h"
 #define HA_OLD_ALGO_OK(p) (__CPROVER_old(p) != NULL && __CPROVER_old((p)->value) <= 0xff && ha_env_algo_trusted((int)__CPROVER_old((p)->value)))
 
+#pragma CPROVER check push
+#pragma CPROVER check disable "pointer"
+#pragma CPROVER check disable "pointer-primitive"
 /* aggregation algorithm: any valid (trusted, known) pushed id replaces the consolidated one (object moved);
  * absent / invalid ids are ignored.  (Not a numeric min/max field; the property text does not list it.) */
 static int KSI_Config_consolidateAggrAlgo(KSI_Config *haCfg, KSI_Config *respCfg, bool *updated)
 __CPROVER_requires(haCfg != NULL && respCfg != NULL && updated != NULL && haCfg != respCfg)
 __CPROVER_ensures(__CPROVER_return_value == KSI_OK)
 __CPROVER_ensures(HA_OLD_ALGO_OK(respCfg->aggrAlgo)
-		? (haCfg->aggrAlgo == __CPROVER_old(respCfg->aggrAlgo) && respCfg->aggrAlgo == NULL && *updated &&
-		   IFF(__CPROVER_was_freed(__CPROVER_old(haCfg->aggrAlgo)), HA_OLD_HEAP_INT(haCfg->aggrAlgo)))
-		: (haCfg->aggrAlgo == __CPROVER_old(haCfg->aggrAlgo) && respCfg->aggrAlgo == __CPROVER_old(respCfg->aggrAlgo) &&
-		   *updated == __CPROVER_old(*updated) && !__CPROVER_was_freed(__CPROVER_old(haCfg->aggrAlgo))))
+		? (__CPROVER_pointer_equals(haCfg->aggrAlgo, __CPROVER_old(respCfg->aggrAlgo)) && respCfg->aggrAlgo == NULL && *updated &&
+		   HA_RELEASED_ONCE(haCfg->aggrAlgo))
+		: (__CPROVER_pointer_equals(haCfg->aggrAlgo, __CPROVER_old(haCfg->aggrAlgo)) && __CPROVER_pointer_equals(respCfg->aggrAlgo, __CPROVER_old(respCfg->aggrAlgo)) &&
+		   *updated == __CPROVER_old(*updated) && HA_NOT_RELEASED(haCfg->aggrAlgo)))
+__CPROVER_requires(IMPLIES(HA_HEAP_INT(haCfg->aggrAlgo), haCfg->aggrAlgo->ref >= 1))
 __CPROVER_assigns(haCfg->aggrAlgo, respCfg->aggrAlgo, *updated)
-__CPROVER_frees(haCfg->aggrAlgo);
+__CPROVER_assigns(haCfg->aggrAlgo != NULL: haCfg->aggrAlgo->ref)
+__CPROVER_frees(respCfg->aggrAlgo != NULL && ha_val_fn(respCfg->aggrAlgo) <= 0xff && ha_env_algo_trusted((int)ha_val_fn(respCfg->aggrAlgo)): haCfg->aggrAlgo);
 
+#pragma CPROVER check pop
 /* numeric view of a (possibly absent) configuration */
 #define HA_CFG_OLDVAL(c, F) (__CPROVER_old(c) == NULL ? 0ULL : HA_OLDVAL((c)->F))
 #define HA_CFG_VAL(c, F) ((c) == NULL ? 0ULL : HA_VAL((c)->F))
@@ -26,22 +32,27 @@ __CPROVER_frees(haCfg->aggrAlgo);
 		spec_ha_merge_first(HA_CFG_VAL(c, calendarFirstTime), 0) == HA_CFG_VAL(c, calendarFirstTime) && \
 		spec_ha_merge_last(HA_CFG_VAL(c, calendarLastTime), 0) == HA_CFG_VAL(c, calendarLastTime))
 
+/* heap integers of a live configuration carry at least one reference */
+#define HA_CFG_REFS(c) (IMPLIES(HA_HEAP_INT((c)->maxLevel), (c)->maxLevel->ref >= 1) && IMPLIES(HA_HEAP_INT((c)->aggrAlgo), (c)->aggrAlgo->ref >= 1) && \
+		IMPLIES(HA_HEAP_INT((c)->aggrPeriod), (c)->aggrPeriod->ref >= 1) && IMPLIES(HA_HEAP_INT((c)->maxRequests), (c)->maxRequests->ref >= 1) && \
+		IMPLIES(HA_HEAP_INT((c)->calendarFirstTime), (c)->calendarFirstTime->ref >= 1) && IMPLIES(HA_HEAP_INT((c)->calendarLastTime), (c)->calendarLastTime->ref >= 1))
+
 /* whole configuration: every numeric field of the consolidated configuration becomes merge(old, pushed);
  * the range invariant is preserved; *updated == old(*updated) || some numeric field or the algorithm changed.
  * Failure only when the consolidated configuration had to be allocated and allocation failed; then nothing changed. */
 static int KSI_HighAvailabilityService_consolidateConfig(KSI_HighAvailabilityService *has, KSI_Config *config, bool *updated)
 __CPROVER_requires(has != NULL && config != NULL && updated != NULL && has->consolidatedConfig != config)
 __CPROVER_requires(HA_CFG_INV(has->consolidatedConfig))
+__CPROVER_requires(has->consolidatedConfig == NULL || HA_CFG_REFS(has->consolidatedConfig))
 __CPROVER_ensures(__CPROVER_return_value == KSI_OK || (__CPROVER_return_value == KSI_OUT_OF_MEMORY &&
 		__CPROVER_old(has->consolidatedConfig) == NULL && has->consolidatedConfig == NULL && *updated == __CPROVER_old(*updated)))
 __CPROVER_ensures(IMPLIES(__CPROVER_return_value == KSI_OK, has->consolidatedConfig != NULL &&
 		(__CPROVER_old(has->consolidatedConfig) == NULL || has->consolidatedConfig == __CPROVER_old(has->consolidatedConfig))))
-__CPROVER_ensures(IMPLIES(__CPROVER_return_value == KSI_OK,
-		HA_CFG_VAL(has->consolidatedConfig, maxLevel) == spec_ha_merge_level(HA_CFG_OLDVAL(has->consolidatedConfig, maxLevel), HA_OLDVAL(config->maxLevel)) &&
-		HA_CFG_VAL(has->consolidatedConfig, aggrPeriod) == spec_ha_merge_period(HA_CFG_OLDVAL(has->consolidatedConfig, aggrPeriod), HA_OLDVAL(config->aggrPeriod)) &&
-		HA_CFG_VAL(has->consolidatedConfig, maxRequests) == spec_ha_merge_requests(HA_CFG_OLDVAL(has->consolidatedConfig, maxRequests), HA_OLDVAL(config->maxRequests)) &&
-		HA_CFG_VAL(has->consolidatedConfig, calendarFirstTime) == spec_ha_merge_first(HA_CFG_OLDVAL(has->consolidatedConfig, calendarFirstTime), HA_OLDVAL(config->calendarFirstTime)) &&
-		HA_CFG_VAL(has->consolidatedConfig, calendarLastTime) == spec_ha_merge_last(HA_CFG_OLDVAL(has->consolidatedConfig, calendarLastTime), HA_OLDVAL(config->calendarLastTime))))
+__CPROVER_ensures(IMPLIES(__CPROVER_return_value == KSI_OK, HA_CFG_VAL(has->consolidatedConfig, maxLevel) == spec_ha_merge_level(HA_CFG_OLDVAL(has->consolidatedConfig, maxLevel), HA_OLDVAL(config->maxLevel))))
+__CPROVER_ensures(IMPLIES(__CPROVER_return_value == KSI_OK, HA_CFG_VAL(has->consolidatedConfig, aggrPeriod) == spec_ha_merge_period(HA_CFG_OLDVAL(has->consolidatedConfig, aggrPeriod), HA_OLDVAL(config->aggrPeriod))))
+__CPROVER_ensures(IMPLIES(__CPROVER_return_value == KSI_OK, HA_CFG_VAL(has->consolidatedConfig, maxRequests) == spec_ha_merge_requests(HA_CFG_OLDVAL(has->consolidatedConfig, maxRequests), HA_OLDVAL(config->maxRequests))))
+__CPROVER_ensures(IMPLIES(__CPROVER_return_value == KSI_OK, HA_CFG_VAL(has->consolidatedConfig, calendarFirstTime) == spec_ha_merge_first(HA_CFG_OLDVAL(has->consolidatedConfig, calendarFirstTime), HA_OLDVAL(config->calendarFirstTime))))
+__CPROVER_ensures(IMPLIES(__CPROVER_return_value == KSI_OK, HA_CFG_VAL(has->consolidatedConfig, calendarLastTime) == spec_ha_merge_last(HA_CFG_OLDVAL(has->consolidatedConfig, calendarLastTime), HA_OLDVAL(config->calendarLastTime))))
 __CPROVER_ensures(IMPLIES(__CPROVER_return_value == KSI_OK, HA_CFG_INV(has->consolidatedConfig)))
 __CPROVER_ensures(IMPLIES(__CPROVER_return_value == KSI_OK, *updated == (__CPROVER_old(*updated) ||
 		HA_CFG_VAL(has->consolidatedConfig, maxLevel) != HA_CFG_OLDVAL(has->consolidatedConfig, maxLevel) ||
@@ -49,6 +60,18 @@ __CPROVER_ensures(IMPLIES(__CPROVER_return_value == KSI_OK, *updated == (__CPROV
 		HA_CFG_VAL(has->consolidatedConfig, maxRequests) != HA_CFG_OLDVAL(has->consolidatedConfig, maxRequests) ||
 		HA_CFG_VAL(has->consolidatedConfig, calendarFirstTime) != HA_CFG_OLDVAL(has->consolidatedConfig, calendarFirstTime) ||
 		HA_CFG_VAL(has->consolidatedConfig, calendarLastTime) != HA_CFG_OLDVAL(has->consolidatedConfig, calendarLastTime) ||
-		HA_OLD_ALGO_OK(config->aggrAlgo))));
+		HA_OLD_ALGO_OK(config->aggrAlgo))))
+__CPROVER_assigns(*updated, has->consolidatedConfig)
+__CPROVER_assigns(config->maxLevel, config->aggrAlgo, config->aggrPeriod, config->maxRequests, config->calendarFirstTime, config->calendarLastTime, config->parentUri)
+__CPROVER_assigns(has->consolidatedConfig != NULL: has->consolidatedConfig->maxLevel, has->consolidatedConfig->aggrAlgo, has->consolidatedConfig->aggrPeriod,
+		has->consolidatedConfig->maxRequests, has->consolidatedConfig->calendarFirstTime, has->consolidatedConfig->calendarLastTime, has->consolidatedConfig->parentUri)
+__CPROVER_assigns(has->consolidatedConfig != NULL && has->consolidatedConfig->maxLevel != NULL: has->consolidatedConfig->maxLevel->ref)
+__CPROVER_assigns(has->consolidatedConfig != NULL && has->consolidatedConfig->aggrAlgo != NULL: has->consolidatedConfig->aggrAlgo->ref)
+__CPROVER_assigns(has->consolidatedConfig != NULL && has->consolidatedConfig->aggrPeriod != NULL: has->consolidatedConfig->aggrPeriod->ref)
+__CPROVER_assigns(has->consolidatedConfig != NULL && has->consolidatedConfig->maxRequests != NULL: has->consolidatedConfig->maxRequests->ref)
+__CPROVER_assigns(has->consolidatedConfig != NULL && has->consolidatedConfig->calendarFirstTime != NULL: has->consolidatedConfig->calendarFirstTime->ref)
+__CPROVER_assigns(has->consolidatedConfig != NULL && has->consolidatedConfig->calendarLastTime != NULL: has->consolidatedConfig->calendarLastTime->ref)
+__CPROVER_frees(has->consolidatedConfig != NULL: has->consolidatedConfig->maxLevel, has->consolidatedConfig->aggrAlgo, has->consolidatedConfig->aggrPeriod,
+		has->consolidatedConfig->maxRequests, has->consolidatedConfig->calendarFirstTime, has->consolidatedConfig->calendarLastTime);
 
 #endif
